@@ -158,7 +158,14 @@ def _helper_pause(rep, h, tag, fld, PAUSE, PAUSED, unreg, reg, bp=False, wq=Fals
         nul = set((t.blk.id, s) for t, s, a in pat.branch_edges_on(h, lambda a: a[0] == "eq" and a[2] == ("c", 0) and a[1][0] == "load" and a[1][1].endswith("worker_before_pause_fct"))) if wq else set()
         rep.must_pass("C16.pause", tag + ".unregister≺PAUSED", h, [h.entry()], orr, lambda i: i in un, include_start=True, edge_ok=pat.block_edge_filter(nul),
                       what="helper unregisters as reader (runs its before-pause hook when one is set) before acknowledging PAUSED")
-        rep.must_pass("C16.pause", tag + ".clear≺register", h, clr, None, lambda i: i in rg, to_exit=False, what="helper re-registers after clearing PAUSED") if False else None
+        # ... and it is a reader again before it touches the next batch: callbacks may take read-side locks, and the helper's own
+        # synchronize_rcu()/offline transitions assume a registered thread
+        qf_ = ("call_rcu_data.cbs_head", "call_rcu_data.cbs_tail", "urcu_workqueue.cbs_head", "urcu_workqueue.cbs_tail")
+        nxt = [e.inst for e in pat.accesses(h, None, ("xchg",)) if any(x in qf_ for x in pat.full_ap_fields(e.ap))]
+        nul2 = set((t.blk.id, s) for t, s, a in pat.branch_edges_on(h, lambda a: a[0] == "eq" and a[2] == ("c", 0) and a[1][0] == "load" and a[1][1].endswith("worker_after_resume_fct"))) if wq else set()
+        if nxt:
+            rep.must_pass("C16.pause", tag + ".resume⇒register", h, clr, nxt, lambda i: i in rg, edge_ok=pat.block_edge_filter(nul2),
+                          what="after leaving the paused state the helper re-registers as reader (runs its after-resume hook when one is set) before taking the next batch")
         hit, _ = h.reach(orr, rg, avoid=lambda i: i in clr)
         rep.check(hit is None, "C16.pause", tag + ".PAUSED≺clear≺register", "re-registration only after PAUSED was cleared", "helper re-registers while still flagged PAUSED", [orr[0].where()])
     hit, _ = h.reach(orr, clr, avoid=lambda i: i.op == "call" and i.callee == "poll")
